@@ -2,6 +2,7 @@ import CookModel.Lemmas.RecipeSoft
 import CookModel.Lemmas.ClosingStream
 import CookModel.Lemmas.FragAll
 import CookModel.Lemmas.ParserBlocks
+import CookModel.Lemmas.ExtLawsEvents
 /-
   C05, soft line breaks lifted to the event stream (wave 8).
 
@@ -241,5 +242,89 @@ theorem rkse_parseTextBlock : KeepsN (parseTextBlock (α := α)) (fun _ => True)
   refine KeepsN.bind (KeepsN.ofA (restToks_keeps (I := ISoft)) restToks_indA) (fun r _ => ?_)
   refine KeepsN.bind (rkse_textBlockLoop _) (fun _ _ => ?_)
   exact KeepsN.pushEv trivial
+
+/-! ### blocks -/
+
+theorem rkse_parseMultilineBlock : KeepsN (parseMultilineBlock (α := α)) (fun _ => True) := by
+  unfold parseMultilineBlock
+  refine KeepsN.bind (KeepsN.ofA (allToks_keeps (I := ISoft)) allToks_indA) (fun all _ => ?_)
+  split
+  · exact KeepsN.bind (KeepsN.ofA (consumeRest_keeps (I := ISoft)) consumeRest_indA) (fun _ _ => KeepsN.pure trivial)
+  · refine KeepsN.bind (KeepsN.ofA (peekK_keeps (I := ISoft)) peekK_indA) (fun k _ => ?_)
+    split
+    · exact rkse_parseTextBlock
+    · exact rkse_parseStep
+
+theorem rkse_blockHead (oldStyle : Bool) : KeepsN (blockHead (α := α) oldStyle) RSoft := by
+  refine KeepsN.of (G := rkseFlags) ?_ ?_
+  · have h1 := (closing_sectionP_keeps (α := α) (I := ISoft)).mono (R' := RSoft)
+      (fun r hr ev he => by obtain ⟨n, rfl⟩ := hr ev he; trivial)
+    have h2 := closing_metadataEntry_keeps (α := α) (I := ISoft)
+    unfold blockHead
+    keeps
+    all_goals (refine Keeps.pure ?_; intro ev he; first | (cases he; done) | (cases he; trivial))
+  · have h7 := rkse_f7
+    unfold blockHead
+    indg_auto
+
+theorem rkse_parseBlock (oldStyle : Bool) : KeepsN (parseBlock (α := α) oldStyle) (fun _ => True) := by
+  rw [parseBlock_eq]
+  refine KeepsN.bind (rkse_blockHead oldStyle) (fun r hr => ?_)
+  split
+  · rename_i ev
+    exact KeepsN.pushEv (hr ev rfl)
+  · exact rkse_parseMultilineBlock
+
+/-- **one block**: when the newline tokens of the block are spelled LF / CR LF, the queue invariant is kept -/
+theorem rkse_runBlock (cs : CharSpec) (ext : Ext) (oldStyle : Bool) (b : List Tok) (evs : Array (Ev α))
+    (p : Option String) (hn : NlSpelled b) (hI : ISoft evs) : ISoft (runBlock cs ext oldStyle b evs p).1 := by
+  rw [runBlock_eq]
+  have key : KeepsN (runBlockBody (α := α) oldStyle b) (fun _ => True) := by
+    unfold runBlockBody
+    refine KeepsN.bind (R := fun _ => True) ?_ (fun _ _ => ?_)
+    · split
+      · exact KeepsN.ofA (Keeps.panicWith _) (panicWith_indA _)
+      · exact KeepsN.pure trivial
+    refine KeepsN.bind (rkse_parseBlock oldStyle) (fun _ _ => ?_)
+    refine KeepsN.get_bind (fun s0 _ => ?_)
+    split
+    · exact KeepsN.ofA (Keeps.panicWith _) (panicWith_indA _)
+    · exact KeepsN.pure trivial
+  exact (key ⟨b, 0, ext, cs, evs, p⟩ hn hI).2.1
+
+theorem rkse_foldl_runBlock (cs : CharSpec) (ext : Ext) (oldStyle : Bool) (blocks : List (List Tok))
+    (hb : ∀ b ∈ blocks, NlSpelled b) (acc : Array (Ev α) × Option String) (h : ISoft acc.1) :
+    ISoft (blocks.foldl (fun acc b => runBlock (α := α) cs ext oldStyle b acc.1 acc.2) acc).1 := by
+  induction blocks generalizing acc with
+  | nil => exact h
+  | cons b bs ih =>
+    rw [List.foldl_cons]
+    exact ih (fun b' hb' => hb b' (List.mem_cons_of_mem _ hb')) _
+      (rkse_runBlock cs ext oldStyle b acc.1 acc.2 (hb b List.mem_cons_self) h)
+
+/-- **every `Text` event of the pull parser has only line breaks (LF or CR LF) as soft fragments** -/
+theorem rkse_pullEvents (cs : CharSpec) (ext : Ext) (input : List Char) :
+    ∀ ev ∈ (pullEvents (α := α) cs ext input).1.toList, SoftEv ev := by
+  unfold pullEvents
+  cases hp : parseFrontmatter cs input with
+  | none =>
+    simp only
+    apply rkse_foldl_runBlock
+    · intro b hb
+      exact (rkse_lexed cs 0 input).sub (allBlocks_mem _ _ b hb)
+    · intro ev hev
+      simp at hev
+  | some fm =>
+    simp only
+    apply rkse_foldl_runBlock
+    · intro b hb
+      exact (rkse_lexed cs _ _).sub (allBlocks_mem _ _ b hb)
+    · intro ev hev
+      simp only [List.mem_singleton] at hev
+      subst hev; trivial
+
+theorem rkse_pullEvents_text (cs : CharSpec) (ext : Ext) (input : List Char) (t : Text)
+    (ht : Ev.text t ∈ (pullEvents (α := α) cs ext input).1.toList) : SoftLB t :=
+  rkse_pullEvents cs ext input _ ht
 
 end Cook
